@@ -53,7 +53,7 @@ theorem c06_earlystop_failure_finishes_record (cfg : Cfg) (hc : cfg.esFailureFin
 
 def legacy : Cfg :=
   { Cfg.fixed with suggestCatchesAll := false, shortDeliveryOk := false, esFailureFinishesOp := false,
-                   resumesAbandonedOp := false }
+                   resumesAbandonedOp := false, esResumesActive := false }
 
 def isStale : Resp → Bool
   | .op _ o _ => !o.done
@@ -76,11 +76,13 @@ theorem c06_legacy_short_delivery_counterexample :
   decide
 
 /-- early stopping: after one failure the ACTIVE record answers every later check, whatever the
-    algorithm would say -/
-theorem c06_legacy_earlystop_wedge (cfg : Cfg) (hc : cfg.esFailureFinishesOp = false) (st : Study) (id : Nat)
+    algorithm would say (pinned commit: the failure leaves the record ACTIVE, and an ACTIVE record is
+    returned, not recomputed) -/
+theorem c06_legacy_earlystop_wedge (cfg : Cfg) (hc : cfg.esFailureFinishesOp = false)
+    (hra : cfg.esResumesActive = false) (st : Study) (id : Nat)
     (t : Trial) (o : EsOp) (ht : st.findTrial id = some t) (hm : t.state.mutable = true)
     (ho : esOpOf st id = some o) (hact : o.active = true) (es : EsOutcome) :
     (esCompute cfg st id .raises).2 = st ∧ earlyStopBody cfg st id es = (.earlyStop o.shouldStop, st) :=
-  ⟨esCompute_raises_legacy cfg hc st id, earlyStop_active_record_is_returned cfg st id t o ht hm ho hact es⟩
+  ⟨esCompute_raises_legacy cfg hc st id, earlyStop_active_record_is_returned cfg hra st id t o ht hm ho hact es⟩
 
 end VizierModel.C06
